@@ -118,6 +118,40 @@ def constructed(rng):
         out.append("minmax %s %s" % (G.fD(*x), G.fD(*y)))
         if rng.random() < 0.3:
             out.append("rk_cmp %s %s" % (G.fD(*x), G.fD(*y)))
+    # coefficients in the narrow band around the alignment-overflow threshold 2^127 / 10^k
+    for p in range(0, 19):
+        for q in range(0, 19):
+            if p == q:
+                continue
+            k = abs(p - q)
+            for d in (-2, -1, 0, 1, 2, rng.randrange(3, 1000)):
+                a = M // P10[k] + d
+                for sg in (1, -1):
+                    for b in (a * P10[k] if abs(a * P10[k]) <= M else M, rng.randrange(-M, M), 1, M, -M):
+                        lo, hi = (p, q) if p < q else (q, p)
+                        out.append("cmpall vv %s %s" % (G.fD(sg * a, lo), G.fD(b, hi)))
+                        out.append("minmax %s %s" % (G.fD(b, hi), G.fD(sg * a, lo)))
+    # 2^68-ish coefficients against scale 18 (fast paths that forget the sign bit)
+    for _ in range(300):
+        a = rng.randrange(170141183460469231731 - 5, (1 << 68) + 5) * rng.choice((1, -1))
+        b = rng.choice((a * P10[18] if abs(a * P10[18]) <= M else M, rng.randrange(-M, M), M, -M))
+        out.append("cmpall vv %s %s" % (G.fD(a, 0), G.fD(b, 18)))
+        out.append("cmpall vv %s %s" % (G.fD(b, 18), G.fD(a, 0)))
+        out.append("cmpall vv i128:%d %s" % (a, G.fD(b, 18)))
+        out.append("cmpall vv %s i128:%d" % (G.fD(b, 18), a))
+    # values congruent to an integer modulo 2^bits of its type (truncating casts)
+    for ty in OP_INT_TYPES:
+        lo, hi = INT_TYPES[ty]
+        bits = hi.bit_length() + (1 if lo < 0 else 0)
+        for v in (lo, hi, 0, 1, 17, -1 if lo < 0 else 200):
+            if not lo <= v <= hi:
+                continue
+            for mult in (1, 2, -1, 3):
+                w = v + mult * (1 << bits)
+                for s in (0, 2, 18):
+                    if abs(w * P10[s]) <= M:
+                        out.append("cmpall vv %s %s" % (G.fD(w * P10[s], s), G.fI(ty, v)))
+                        out.append("cmpall vv %s %s" % (G.fI(ty, v), G.fD(w * P10[s], s)))
     # equal values in every representation
     for _ in range(60):
         c, s = G.dec(rng)
